@@ -12,6 +12,17 @@ theorem C16_tgen_log_consts : Extracted.vlogHeaderSize = 20 ∧ Extracted.maxHea
     Extracted.bitTxn = 64 ∧ Extracted.bitFinTxn = 128 ∧ Extracted.bitValuePointer = 2 ∧
     Extracted.bitDelete = 1 := by decide
 
+/-- The reads of `safeRead.Entry` are the ones the model's `readFull` / `headerDecodeFrom` mirror:
+    header via `DecodeFrom` (two `ReadByte`, three `binary.ReadUvarint`), key‖value and checksum via
+    `io.ReadFull` (no bare `Read`, which returns short counts at refill boundaries of the
+    `bufio.Reader` that `iterate` uses), in this order. -/
+theorem C16_tgen_saferead_reads : Extracted.ord_saferead_reads = "ascending" ∧
+    Extracted.has_saferead_bare_read = "no" ∧ Extracted.ord_header_decodefrom_reads = "ascending" ∧
+    Extracted.has_iterate_bufio = "yes" := by decide
+
+theorem C09_tgen_saferead_reads : Extracted.ord_saferead_reads = "ascending" ∧
+    Extracted.has_saferead_bare_read = "no" := by decide
+
 theorem C09_tgen_log_consts : Extracted.vlogHeaderSize = 20 ∧ Extracted.maxHeaderSize = 22 ∧
     Extracted.bitTxn = 64 ∧ Extracted.bitFinTxn = 128 := by decide
 
